@@ -240,7 +240,7 @@ def run(tier, seed, pid='C06'):
     rep = Report(pid, tier, seed, 'model_checking')
     common.build_mmdump()
     mirs = [common.dump_mir('mimium_lang')[0], common.dump_mir('state_tree')[0]]
-    files = [f for f in common.corpus_files(['st', 'ct']) ]
+    files = [f for f in common.corpus_files(['st', 'ct', 'cl', 'fx'])]
     budget = 90 if quick else 400
     qto = 5000 if quick else 30000
     jobs = [('analysis', dict(cls=('checks.c06', 'SwapAnalysis'), path=f, mir_paths=mirs, steps=1, mode='inductive',
@@ -252,7 +252,7 @@ def run(tier, seed, pid='C06'):
             continue
         npaths += r.get('paths', 0)
         nchecks += r.get('checks', 0)
-        path = os.path.join(common.VERIF, 'corpus', r['program'] + '.mmm')
+        path = r.get('path') or os.path.join(common.VERIF, 'corpus', r['program'] + '.mmm')
         done = False
         for d in r.get('panics', []):
             if done:
